@@ -347,6 +347,7 @@ def install_wrapper_stubs(E, ctx, R, my, opts):
             if E.branch(s.m_has):
                 ev = Obj('AEvent', dict(ident=s.m_ev))
                 st['marker_read'] = (s.m_loop, s.m_ev)
+                st['marker_read_in_tenure'] = (s.m_loop, s.m_ev)
                 return VTuple([VVal(s.m_loop), ev])
             E.throw('KeyError', origin='no-marker')
         return None
@@ -374,6 +375,7 @@ def install_wrapper_stubs(E, ctx, R, my, opts):
                 raise Unsupported('in-flight marker of unexpected shape %r' % (v,), node)
             lp_, ev_ = v.items[0].t, v.items[1].fields['ident']
             my['ev'] = ev_
+            st['installed_in_tenure'] = True
             E.oblige('%s/install.marker_event_is_a_fresh_one_per_computation' % Q, s.st[ev_] == 0,
                      props={'C01', 'C05'})
             R.set(m_has=z3.BoolVal(True), m_loop=lp_, m_ev=ev_, st=z3.Store(s.st, ev_, 1),
@@ -491,12 +493,26 @@ def install_wrapper_stubs(E, ctx, R, my, opts):
                 E.assume(z3.Not(s.lk_held))
                 R.set(lk_held=z3.BoolVal(True), lk_owner=me)
                 st['locked'] = st.get('locked', 0) + 1
+                st['installed_in_tenure'] = False
+                st['marker_read_in_tenure'] = None
+                st['reads_at_enter'] = len(st.get('liveness_reads', []))
                 return cm
 
             def exit_(exc):
                 access('lock release')
                 s = R.cur()
                 E.oblige('%s/lock.released_by_its_holder' % Q, mine_lock(s, me), props={'C01'})
+                mr = st.get('marker_read_in_tenure')
+                if exc is None and mr is not None and not st.get('installed_in_tenure'):
+                    # the locked block found another caller's marker and leaves it in place (it is going to wait
+                    # for it): only if it has seen that marker's loop running and not closed; a stopped or
+                    # closed computing loop must be taken over here, or the caller waits / retries for ever
+                    reads = st.get('liveness_reads', [])[st.get('reads_at_enter', 0):]
+                    seen_running = any(k == 'running' and r is True and z3.eq(l, mr[0]) for k, l, r in reads)
+                    seen_open = any(k == 'closed' and r is False and z3.eq(l, mr[0]) for k, l, r in reads)
+                    E.oblige('%s/decide.a_foreign_marker_is_left_in_place_only_if_its_loop_was_seen_running_and_not_closed'
+                             % Q, z3.BoolVal(seen_running and seen_open), props={'C05', 'C06'},
+                             detail='reads under the lock: %r' % [(k, r) for k, l, r in reads])
                 R.set(lk_held=z3.BoolVal(False))
                 st['locked'] -= 1
                 return False
@@ -532,12 +548,12 @@ def install_wrapper_stubs(E, ctx, R, my, opts):
         return aio.mk_awaitable('user_invocation')
     Bn['__call__'] = call_user
 
-    def aw_user(E_, v, node):
+    def aw_user(E_, v, node, shielded=False):
         """The wrapped function: ghost open/close of an invocation (DESIGN C01 stub)."""
         e = my.get('ev')
         access('invoke')
         s = R.cur()
-        E.oblige('%s/invoke.never_invoked_again_after_a_success' % Q, z3.Not(s.succeeded), props={'C01'})
+        E.oblige('%s/invoke.never_invoked_again_after_a_success' % Q, z3.Not(s.succeeded), props={'C01', 'C14'})
         E.oblige('%s/invoke.only_while_holding_the_in_flight_marker' % Q,
                  z3.And(z3.BoolVal(e is not None), s.m_has, s.m_ev == e if e is not None else z3.BoolVal(False),
                         s.st[e] == 1 if e is not None else z3.BoolVal(False)), props={'C01'})
@@ -557,6 +573,9 @@ def install_wrapper_stubs(E, ctx, R, my, opts):
                   the_result=v_)
             st['own_result'] = v_
             return VVal(v_)
+        if tag == 'cancelled' and shielded:
+            # the caller's cancellation does not reach a shielded invocation: it stays live
+            raise PyExc(E.mk_exc('CancelledError', origin='own-cancel'))
         R.set(st=z3.Store(s.st, e, 5), live=z3.Store(s.live, e, False))
         if tag == 'raise':
             c = E.fresh('user_exc', ClsS)
@@ -598,6 +617,10 @@ def install_wrapper_stubs(E, ctx, R, my, opts):
         """await shield(waiter): completes with the waiter's outcome, or raises CancelledError in THIS task
         when this task is cancelled (the waiter keeps running)."""
         w = v.fields['inner']
+        if isinstance(w, Obj) and w.cls == 'Awaitable' and w.fields.get('kind') == 'user_invocation':
+            # shield(<the wrapped function's coroutine>): the invocation runs in a task of its own; when the
+            # CALLER is cancelled the CancelledError surfaces here while the invocation goes on running
+            return aw_user(E_, w, node, shielded=True)
         if not (isinstance(w, Obj) and w.cls == 'WaiterTask'):
             raise Unsupported('shield of %r' % (w,), node)
         wiring(w, node)
@@ -622,13 +645,26 @@ def install_wrapper_stubs(E, ctx, R, my, opts):
         # my own task may or may not have a cancellation pending as well
         w.fields['_done'] = z3.BoolVal(True)
         w.fields['_cancelled'] = z3.BoolVal(True)
+        st['own_cancel_pending_at_foreign_cancel'] = s.cancel_req[me]
         E.throw('CancelledError', origin='foreign-cancel')
     aio.AWAIT['shield'] = aw_shield
 
     def aw_waiter(E_, w, node):
-        """`await waiter` after waiter.cancel(): CancelledError once it has unwound."""
+        """`await waiter` after waiter.cancel(): CancelledError once it has unwound.  Awaited WITHOUT having been
+        cancelled it is still the 60 s wait: the caller (who is here because its own wait was interrupted) would sit
+        in it until the computation ends or the safety timeout fires."""
+        E.oblige('%s/cancel.an_interrupted_callers_pending_waiter_is_cancelled_before_it_is_awaited' % Q,
+                 z3.BoolVal(bool(w.fields['cancel_called']) or z3.is_true(w.fields['_done'])), props={'C05', 'C06'},
+                 detail='a cancelled or timed-out caller ends at once, it does not wait for the computation')
         R.point('task', 'await waiter')
-        E.throw('CancelledError', origin='cancelled-waiter')
+        if w.fields['cancel_called']:
+            E.throw('CancelledError', origin='cancelled-waiter')
+        tag = E.choose([('done', None), ('timeout', None), ('cancelled', None)], 'uncancelled waiter')
+        if tag == 'done':
+            return VBool(True)
+        if tag == 'timeout':
+            E.throw('TimeoutError', origin='waiter')
+        E.throw('CancelledError', origin='foreign-cancel')
     Bn['__await_ext__'] = lambda E_, v, node, fr: ((aw_waiter(E_, v, node),) if isinstance(v, Obj) and
                                                    v.cls == 'WaiterTask' else None)
 
@@ -733,6 +769,24 @@ def engine(E, props):
     E.props_default = frozenset(props)
     E.inline.add('aiuti.asyncio._being_cancelled')
 
+    def _hash(E_, a, k):
+        """hash(x): a function of the value (equal values hash alike); NOT injective"""
+        terms = []
+
+        def flat(v):
+            if isinstance(v, VTuple):
+                for i in v.items:
+                    flat(i)
+            elif isinstance(v, (VVal, VSeq, VInt, VStr, VBool, VReal)):
+                terms.append(v.t)
+            else:
+                raise Unsupported('hash(%r)' % (v,))
+        flat(a[0])
+        fn = z3.Function('hash_of_' + '_'.join(str(t.sort()) for t in terms).replace(' ', ''),
+                         *([t.sort() for t in terms] + [z3.IntSort()]))
+        return VInt(fn(*terms))
+    E.builtins['hash'] = VStub('hash', _hash)
+
 
 def t_wrapper(E):
     """_wrapper under rely/guarantee: C01, C05, C06 (and the C14 frame clauses)."""
@@ -765,7 +819,7 @@ def t_wrapper(E):
                 lps.append(mr[0])
             lps += opts.get('observed_closed', [])
             return dict(ev=_uniq(evs), loop=_uniq(lps))
-        R = rg.RG(E, DECL, inv, MY_ACTIONS, thread, task, me=me, qual=Q, props={'C01', 'C05', 'C06'},
+        R = rg.RG(E, DECL, inv, MY_ACTIONS, thread, task, me=me, qual=Q, props={'C01', 'C05', 'C06', 'C14'},
                   inv_parts=INV_PARTS, sorts=SORTS, terms=terms)
         R.point_facts = point_facts
         R.hints = lambda: dict(ev=_uniq(([my['ev']] if my.get('ev') is not None else []) +
@@ -811,10 +865,11 @@ def t_wrapper(E):
                 isc = E.exc_isinstance(exc, EXC['CancelledError'])
                 if isc is True or (not isinstance(isc, bool) and E.branch(isc)):
                     E.oblige(Q + '/signals.CancelledError_only_when_the_callers_own_task_was_cancelled',
-                             s.cancel_req[me], props={'C06'}, detail='origin: %s' % origin)
+                             s.cancel_req[me], props={'C06', 'C05'}, detail='origin: %s' % origin)
                 else:
                     E.oblige(Q + '/signals.exception_only_from_the_callers_own_invocation',
-                             z3.BoolVal(False), props={'C06'}, detail='origin: %s' % origin)
+                             z3.BoolVal(False), props={'C06', 'C05'}, detail='origin: %s (a caller whose wait ended '
+                             'without a result must loop around and recover, not fail)' % origin)
         # ---- C05: no marker outlives its computation; waiters are woken
         if my.get('ev') is not None:
             e_ = my['ev']
@@ -858,6 +913,7 @@ def hooks_for_loop(E, R, my, opts, me):
             for n in ('caching_loop', 'event', 'do_caching', 'wait_event', 'wait_fut', 'waiter', 'result'):
                 fr.env.pop(n, None)
             opts['suspended'] = False
+            opts.pop('own_cancel_pending_at_foreign_cancel', None)
             opts['observed_closed'] = []
             opts['liveness_reads'] = []
             opts.pop('marker_read', None)
@@ -865,6 +921,12 @@ def hooks_for_loop(E, R, my, opts, me):
         def step():
             # C05 "no spinning": a back-edge must be preceded by a suspended wait, or by having seen the
             # marker's loop CLOSED (permanent, so the next locked block takes over)
+            pend = opts.pop('own_cancel_pending_at_foreign_cancel', None)
+            if pend is not None:
+                # the wait ended with the cancellation of the shielded waiter (the other loop went away): the caller
+                # loops around -- unless its OWN task has a cancellation pending as well, which it must honour
+                E.oblige(Q + '/cancel.own_pending_cancellation_is_never_swallowed_with_a_foreign_one', z3.Not(pend),
+                         props={'C06'}, detail='a call whose task was cancelled ends cancelled')
             mr = opts.get('marker_read')
             spun = not opts.get('suspended')
             if spun:
@@ -886,7 +948,7 @@ def t_side(E):
         thread = rg.q_stable(thread, SORTS)
         task = rg.q_stable(task, SORTS)
         rg.side_conditions(
-            E, DECL, inv, MY_ACTIONS, other_actions(), thread, task, qual=Q, props={'C01', 'C05', 'C06'},
+            E, DECL, inv, MY_ACTIONS, other_actions(), thread, task, qual=Q, props={'C01', 'C05', 'C06', 'C14'},
             mk_me=lambda E_: z3.Const('me', CallerS), mk_other=lambda E_: z3.Const('other', CallerS),
             distinct=lambda a, b: a != b)
         # property-level lemmas over the invariant
@@ -986,9 +1048,9 @@ def t_keys(E):
         E.used('assume: ==/hash of argument values are consistent; frozenset extensional; tuple == element-wise')
         eqk = E.eq(key1, key2)
         eqk = z3.BoolVal(eqk) if isinstance(eqk, bool) else eqk
-        E.oblige(Q + '/key.equal_calls_share_an_entry', z3.Implies(same_call, eqk), props={'C14'},
+        E.oblige(Q + '/key.equal_calls_share_an_entry', z3.Implies(same_call, eqk), props={'C14', 'C01'},
                  detail='positional equal in order and keywords equal as a set of pairs => same key')
-        E.oblige(Q + '/key.different_calls_never_share', z3.Implies(eqk, same_call), props={'C14'},
+        E.oblige(Q + '/key.different_calls_never_share', z3.Implies(eqk, same_call), props={'C14', 'C06'},
                  detail='same key => positional equal in order and keywords equal as a set of pairs')
     E.run_paths(body)
 
@@ -1010,6 +1072,6 @@ def _unsupp(m):
 
 TASKS = {
     'cache._wrapper': (t_wrapper, {'C01', 'C05', 'C06', 'C14'}),
-    'cache.side_conditions': (t_side, {'C01', 'C05', 'C06'}),
-    'cache.keys': (t_keys, {'C14'}),
+    'cache.side_conditions': (t_side, {'C01', 'C05', 'C06', 'C14'}),
+    'cache.keys': (t_keys, {'C14', 'C01', 'C06'}),
 }
